@@ -354,6 +354,7 @@ class ExprMixin(object):
         if isinstance(op, pyast.NotIn):
             return Not(self.contains(st, b, a))
         if isinstance(a, V) and isinstance(b, V):
+            a, b = self.float_align(a, b)
             ai, bi = Val.i(a.t), Val.i(b.t)
             as_, bs = Val.s(a.t), Val.s(b.t)
             both_str = (a.hint is not None and a.hint.kind == 'str' and not a.hint.opt and
@@ -575,7 +576,25 @@ class ExprMixin(object):
                 return t.arg(0).as_string()
         return None
 
+    def float_align(self, a, b):
+        """operands of a comparison where one side is a float (scaled representation): an int operand is scaled likewise"""
+        fa = isinstance(a, V) and a.hint is not None and a.hint.kind == 'float'
+        fb = isinstance(b, V) and b.hint is not None and b.hint.kind == 'float'
+        if not (fa or fb) or (fa and fb):
+            return a, b
+        from .model import FLOAT_SCALE
+        f, o = (a, b) if fa else (b, a)
+        if f.hint.opt or not (isinstance(o, V) and o.hint is not None and o.hint.kind in ('int', 'bool') and not o.hint.opt):
+            raise EngineError('comparison of a float with a value that is not statically an int')
+        if o.hint.kind == 'bool':
+            raise EngineError('comparison of a float with a bool')
+        o2 = V(mkI(Val.i(o.t) * FLOAT_SCALE), parse_spec('float'))
+        return (f, o2) if fa else (o2, f)
+
     def binop(self, st, op, a, b):
+        for x in (a, b):
+            if isinstance(x, V) and x.hint is not None and x.hint.kind == 'float':
+                raise EngineError('arithmetic on float values is not modelled')
         if isinstance(op, pyast.Mod) and self.const_str(a) is not None:
             return self.percent_format(st, self.const_str(a), b)
         if isinstance(op, pyast.Add):
